@@ -26,6 +26,7 @@ LEVEL = "exploration"
 DEADLINE = 20
 RERUN_DEADLINE = 60
 QUICK_TARGET = 9000
+THOROUGH_D2_MOD = 3
 
 
 def tlc_explore(ctx, cfg, what):
@@ -56,13 +57,18 @@ def select(ctx, corpus, tlc_texts, idx):
         h = F.shash(t)
         if h in byh:
             chosen[h] = byh[h]
-        elif not any(h == c for c in ()):  # reached by TLC but not frozen (spec or seeds changed): run it, strictly
+        else:  # reached by TLC but not frozen (spec or seeds changed): run it, strictly
             chosen[h] = {"h": h, "sql": t, "src": "tlc-fresh"}
             fresh += 1
     if ctx.tier == "thorough":
-        for c in corpus:
-            chosen.setdefault(c["h"], c)
-        return list(chosen.values()), fresh
+        # everything frozen, except that the (large) depth-2 family is run one residue class of THOROUGH_D2_MOD per run
+        r = ctx.seed % THOROUGH_D2_MOD
+        out = collections.OrderedDict()
+        for c in list(chosen.values()) + corpus:
+            if c["src"] == "tlc-d2" and int(c["h"], 16) % THOROUGH_D2_MOD != r and c["h"] not in idx:
+                continue
+            out.setdefault(c["h"], c)
+        return list(out.values()), fresh
     # quick: a residue class of the TLC statements + of the frozen list, every light seed, 2 listed inputs per class
     tl = list(chosen.values())
     m = max(1, len(tl) * 2 // QUICK_TARGET)
